@@ -100,6 +100,7 @@ pub fn judge(ctx: &Ctx, l: &mut Local, p: &Params, site: Site, date: NaiveDate, 
 
 pub fn explore(ctx: &Ctx) {
     // call sequences from non-initial states (see history.rs)
+    crate::history::explore(ctx, "long_ranges", &crate::history::alphabet_long_ranges(), 2);
     crate::history::explore(ctx, "policy", &crate::history::alphabet_policy(), 3);
     let quick = ctx.tier == Tier::Quick;
     ctx.rule("every (site, date, method, policy) enumerated once and compared with the conventional result of the same (site, date, method); non-trivial = the policy engaged (result differs from the conventional one)");
